@@ -1,20 +1,20 @@
-\* quick: extent-map query, inline refill, refill unit = 1 block, 2 readers x 1 read of 3 ranges, 1 eviction (explicit or sweep), 1 source fault
+\* thorough: in-memory map, asynchronous writer, refill unit 2 blocks, 9 ranges, 1 eviction, 1 fault
 SPECIFICATION Spec
 CONSTANTS
   NF = 1
   SZ = 7
   BLK = 2
-  RU = 2
+  RU = 4
   Readers = {r1, r2}
   r1 = r1
   r2 = r2
-  ReadSet <- RS_q3
+  ReadSet <- RS_t
   NReads = 1
   MaxEv = 1
-  Async = FALSE
+  Async = TRUE
   MaxRefilling = 2
   Faults = 1
-  Fiemap = TRUE
+  Fiemap = FALSE
   CapFull = FALSE
   ReopenMax = 0
   Bug = "none"
